@@ -23,6 +23,8 @@ def run(fx, rep, tier):
     rule_castle(fx, rep)
     rule_match(fx, rep)
     rule_forward(fx, rep)
+    import pC11
+    pC11.rule_history(fx, rep, rid="C17-HISTORY")
 
 
 def rule_forward(fx, rep):
